@@ -220,6 +220,13 @@ def w_c13():
         return f"'anything' with a verb other than should_not yields a verdict: {bad}"
 
 
+def w_c13b():
+    g = make_graph(["p", "p.a", "q"], [])
+    out = run_rule_ops([("mt", None), ("named", ["p.a", "p.a.zz"]), ("not", None), ("impany", None)], g)
+    if out[0] != "ERR":
+        return f"rule naming the absent module p.a.zz returns a verdict: {out[0]}"
+
+
 # ----------------------------------------------------------------------------- C14
 def w_c14a():
     g = make_graph(["p", "p.a", "p.ab", "p.c"], [("p.ab", "p.c")])
@@ -316,6 +323,7 @@ WITNESSES = {
     "F-C10c": ("C10", w_c10c),
     "F-C11": ("C11", w_c11),
     "F-C13": ("C13", w_c13),
+    "F-C13b": ("C13", w_c13b),
     "F-C14a": ("C14", w_c14a),
     "F-C14b": ("C14", w_c14b),
     "F-C14c": ("C14", w_c14c),
